@@ -28,6 +28,12 @@
 (*                          callers TearSheetAssetGenerator::              *)
 (*                          update_from_balance, TearSheetGenerator::      *)
 (*                          update_from_position                           *)
+(*          Reset           TearSheetGenerator::reset(start) /              *)
+(*                          TearSheetAssetGenerator::reset(first balance): *)
+(*                          a new session; afterwards every figure is that *)
+(*                          of a fresh generator fed the remainder only    *)
+(*          Persist         serde store + restore of the generators: a     *)
+(*                          stutter (PersistIsStutter)                     *)
 (*          ReadCurrent     DrawdownGenerator::generate(): READING the     *)
 (*                          current drawdown.  The reference decomposition *)
 (*                          is a function of the curve alone, so it cannot *)
@@ -61,16 +67,19 @@ CONSTANTS
   Values,     \* curve values: non-negative integers (a .cfg file cannot write negative numbers) ...
   NegMag,     \* ... and the magnitudes of the negative values: AllValues = Values \cup {-x : x \in NegMag}
   Gaps,       \* time increments (integers >= 0)
-  MaxLen      \* bound on the number of points
+  MaxLen,     \* bound on the number of points (all sessions together)
+  MaxResets   \* bound on the number of Reset steps
 
 VARIABLES
   curve,      \* Seq([t, v])   the history
   gen,        \* running generator state
   emitted,    \* Seq(drawdown) what the running generator has emitted
   seen,       \* what the last ReadCurrent returned
+  sess,       \* [clock: time of the latest point ever fed, fed: points fed, resets: sessions ended]
   last
 
-vars == <<curve, gen, emitted, seen, last>>
+vars == <<curve, gen, emitted, seen, sess, last>>
+View == <<curve, gen, emitted, seen, sess>>        \* `last` is observation only
 
 -----------------------------------------------------------------------------
 \* k = index of the peak, q = index of the last point of the period (the recovery point of a
@@ -154,9 +163,10 @@ Init == /\ curve = <<>>
         /\ gen = Gen0
         /\ emitted = <<>>
         /\ seen = NoDD
+        /\ sess = [clock |-> 0, fed |-> 0, resets |-> 0]
         /\ last = [a |-> "Init", t |-> 0, v |-> 0]
 
-Now == IF Len(curve) = 0 THEN 0 ELSE curve[Len(curve)].t
+Now == sess.clock                       \* time does not restart with a new session
 
 AddPoint(t, v) ==
   /\ curve' = Append(curve, [t |-> t, v |-> v])
@@ -165,20 +175,35 @@ AddPoint(t, v) ==
         /\ emitted' = IF r[2].has THEN Append(emitted, r[2].d) ELSE emitted
   /\ last' = [a |-> "AddPoint", t |-> t, v |-> v]
   /\ seen' = NoDD                        \* (a read value is only kept until the next point)
+  /\ sess' = [sess EXCEPT !.clock = t, !.fed = @ + 1]
 
 \* reading the current drawdown: the generator's generate() - a pure observation
 ReadCurrent ==
   /\ seen' = GenCurrent(gen)
   /\ last' = [a |-> "Read", t |-> 0, v |-> 0]
-  /\ UNCHANGED <<curve, gen, emitted>>
+  /\ UNCHANGED <<curve, gen, emitted, sess>>
+
+\* the generators are serialisable: storing and restoring them is a stutter of the abstract state
+Persist ==
+  /\ last' = [a |-> "Persist", t |-> 0, v |-> 0]
+  /\ UNCHANGED <<curve, gen, emitted, seen, sess>>
+
+\* TearSheetGenerator::reset / TearSheetAssetGenerator::reset: a new session - everything back to
+\* Init; what is reported afterwards is the decomposition of the points fed SINCE the reset only
+Reset ==
+  /\ curve' = <<>> /\ gen' = Gen0 /\ emitted' = <<>> /\ seen' = NoDD
+  /\ sess' = [sess EXCEPT !.resets = @ + 1]
+  /\ last' = [a |-> "Reset", t |-> 0, v |-> 0]
 
 AddPointAny    == \E g \in Gaps, v \in AllValues :
-                     /\ Len(curve) < MaxLen
+                     /\ sess.fed < MaxLen
                      /\ Len(curve) = 0 => v > 0                 \* positive peaks
                      /\ AddPoint(Now + g, v)
 ReadCurrentAny == last.a = "AddPoint" /\ ReadCurrent
+PersistAny     == last.a \in {"AddPoint", "Read"} /\ Persist
+ResetAny       == Len(curve) > 0 /\ sess.resets < MaxResets /\ Reset
 
-Next == AddPointAny \/ ReadCurrentAny
+Next == AddPointAny \/ ReadCurrentAny \/ PersistAny \/ ResetAny
 Spec == Init /\ [][Next]_vars
 
 -----------------------------------------------------------------------------
@@ -192,6 +217,13 @@ RunIsRef == /\ emitted = Completed(curve)
             /\ GenCurrent(gen) = Current(curve)
             /\ gen.has = Peak(curve).has
             /\ gen.has => gen.peak = Peak(curve).v /\ gen.tpeak = Peak(curve).t /\ gen.tnow = Now
+            /\ Len(curve) > 0 => curve[Len(curve)].t = Now
+
+\* after a reset nothing of the previous session is reported: the state is that of a fresh generator
+ResetIsInit == last.a = "Reset" =>
+  /\ curve = <<>> /\ gen = Gen0 /\ emitted = <<>> /\ ReportedFin(curve) = {} /\ ~Current(curve).has /\ ~Peak(curve).has
+\* a store / restore changes nothing any figure depends on
+PersistIsStutter == [][last'.a = "Persist" => <<curve, gen, emitted, seen, sess>>' = <<curve, gen, emitted, seen, sess>>]_vars
 
 \* reading is idempotent: what a read returns is the current drawdown of the curve, and the
 \* decomposition (a function of the curve) is the same whether or not / whenever it was read
